@@ -520,3 +520,7 @@ def run(ctx):
     r3_material(ctx)
     r4_terminal(ctx)
     r5_mate_distance(ctx)
+    # 'a checkmated side to move always receives a losing mate score': no other rule of the evaluator may take
+    # precedence over the mate branch (shared with C05.R3)
+    from . import c05
+    c05.r3_evaluator(ctx)
